@@ -7,9 +7,11 @@ package explore
 import (
 	"encoding/json"
 	"fmt"
+	"os"
 	"runtime"
 	"strings"
 	"sync"
+	"time"
 
 	"verifmc/ev"
 )
@@ -35,6 +37,11 @@ type Config[O any] struct {
 	MaxStates   int  // safety cap; hitting it clears exhaustive
 	CheckMerges bool // differential oracle on merged states
 	Workers     int
+	// Deadline (zero = none) truncates the search: no new state is expanded after it, the
+	// result is reported as capped (never as a verdict).
+	Deadline time.Time
+	// KeepGoing continues the search after a level that produced violations (default: stop).
+	KeepGoing bool
 	// FallbackDepth bounds the unmerged re-exploration used when the merge check shows that
 	// the state key does not determine behaviour (default 4).
 	FallbackDepth int
@@ -76,11 +83,26 @@ func Explore[O any](r *ev.Run, cfg Config[O]) Result {
 		obs, key string
 		terminal bool
 	}
+	violAtStart := r.NumViolations()
+	stoppedOnViolation := false
 	for depth := 0; len(frontier) > 0; depth++ {
 		if cfg.MaxDepth > 0 && depth >= cfg.MaxDepth {
 			break
 		}
+		if r.NumViolations() > violAtStart && !cfg.KeepGoing {
+			// breadth-first: the violations found so far are the shortest ones. A tree that
+			// breaks the property can have a far larger (even unbounded) state space than
+			// the one the bounds were chosen for, so the search stops after the level that
+			// produced the first violation.
+			stoppedOnViolation = true
+			r.Capped(fmt.Sprintf("%s: search stopped after depth %d, the first level with a violation (%d states unexpanded)", cfg.Name, depth, len(frontier)))
+			break
+		}
+		if os.Getenv("VERIF_PROGRESS") != "" {
+			fmt.Fprintf(os.Stderr, "[explore %s] depth %d frontier %d states %d transitions %d\n", cfg.Name, depth, len(frontier), res.States, res.Transitions)
+		}
 		out := make([][]succ, len(frontier))
+		timedOut := false
 		var wg sync.WaitGroup
 		var next int
 		var mu sync.Mutex
@@ -94,6 +116,12 @@ func Explore[O any](r *ev.Run, cfg Config[O]) Result {
 					next++
 					mu.Unlock()
 					if i >= len(frontier) {
+						return
+					}
+					if !cfg.Deadline.IsZero() && time.Now().After(cfg.Deadline) {
+						mu.Lock()
+						timedOut = true
+						mu.Unlock()
 						return
 					}
 					n := nodes[frontier[i]]
@@ -154,14 +182,19 @@ func Explore[O any](r *ev.Run, cfg Config[O]) Result {
 		}
 		frontier = nextFrontier
 		res.Depth = depth + 1
+		if timedOut {
+			stoppedOnViolation = true // (reported below as capped, not as a missing fixpoint)
+			r.Capped(fmt.Sprintf("%s: time budget hit inside depth %d (%d states so far)", cfg.Name, depth, res.States))
+			break
+		}
 	}
 	res.Fixpoint = len(frontier) == 0
-	if !res.Fixpoint {
+	if !res.Fixpoint && !stoppedOnViolation {
 		r.Capped(fmt.Sprintf("%s: depth bound %d reached with %d unexpanded states", cfg.Name, cfg.MaxDepth, len(frontier)))
 	}
 	// Differential oracle on merges: a state reached through another path must behave
 	// exactly like its representative for every enabled operation.
-	if cfg.CheckMerges {
+	if cfg.CheckMerges && (cfg.Deadline.IsZero() || time.Now().Before(cfg.Deadline)) {
 		type job struct {
 			key string
 			alt []O
@@ -236,6 +269,9 @@ func Explore[O any](r *ev.Run, cfg Config[O]) Result {
 				depth := cfg.FallbackDepth
 				if depth <= 0 {
 					depth = 4
+				}
+				if os.Getenv("VERIF_PROGRESS") != "" {
+					fmt.Fprintf(os.Stderr, "[explore %s] merge divergence: %s\n", cfg.Name, diverged[0])
 				}
 				n := pathExplore(r, cfg, depth, 400000)
 				r.Add("unmerged_fallback_sequences", n)
